@@ -9,3 +9,4 @@ import TypedpyModel.Props.C06
 #print axioms Typedpy.C06.deserialize_exact_partial
 #print axioms Typedpy.C06.deserialize_accepts_iff_partial
 #print axioms Typedpy.C06.exact_fragment_example
+#print axioms Typedpy.C06.exact_set_map_example
